@@ -168,7 +168,11 @@ func (w *worker) account(label string, in RunInput, out RunOutput) {
 			f.Count++
 			continue
 		}
-		if w.unrepro[v.Key()] < 6 && !w.freshReplay(replayInput(in, out), v.Key()) {
+		if w.unrepro[v.Key()] >= 6 {
+			w.unrepro[v.Key()]++ // already tried several witnesses of this key in fresh processes: stop spending time on it
+			continue
+		}
+		if !w.freshReplay(replayInput(in, out), v.Key()) {
 			// seen here, but not in a fresh process: this worker's process state is involved. Wait for a witness
 			// that stands on its own (a later run may contain the whole history); report the key as unconfirmed meanwhile.
 			w.unrepro[v.Key()]++
@@ -251,6 +255,12 @@ func (w *worker) minimiseAndWrite(f *Finding, in RunInput, out RunOutput, v Viol
 		budget = 0 // too many distinct findings in this worker: keep the recorded run as it is
 	}
 	best, st := Minimise(w.t, w.p, rin, v.Key(), budget)
+	if budget > 0 && !w.freshReplay(best, v.Key()) {
+		// the shrunk run only fails with what earlier runs left behind in this process: keep the recorded run,
+		// which was confirmed in a fresh process before it was accepted as a witness
+		best = rin
+		st.GenAfter, st.RunAfter, st.PreAfter = len(rin.GenTape), len(rin.RunTape), len(rin.Preempt)
+	}
 	best.Trace = true
 	fin := RunOne(w.t, w.p, best)
 	if !hasKey(fin.Violations, v.Key()) {
